@@ -1013,6 +1013,28 @@ def gen_derived(rng, tier):
         hp = rand_hp(rng, d, (2, 2), exps=[(0,), (1,)])
         cases.append(derived_case("ediff1d", f"ediff1d({d}(2,2))", hp, (lambda hp=hp: numpoly.ediff1d(hp.build())), numpy.ediff1d, True,
                                   ("ediff1d", d, "-")))
+        # ediff1d with to_begin / to_end of ANOTHER dtype (values that cast safely): numpy keeps the array's dtype and so
+        # must every coefficient (the constant term takes to_begin / to_end, the other terms a zero there)
+        hp = rand_hp(rng, d, (4,), exps=[(0,), (1,)], wide=False)
+        for tb_dt, te_dt in (("int8", None), ("bool", None), ("uint8", "int8"), (None, "int8")):
+            tb = numpy.dtype(tb_dt).type(1) if tb_dt else None
+            te = numpy.dtype(te_dt).type(1) if te_dt else None
+            kw = {k: v for k, v in (("to_begin", tb), ("to_end", te)) if v is not None}
+            if not all(numpy.can_cast(numpy.asarray(v).dtype, numpy.dtype(d), casting="same_kind") for v in kw.values()):
+                continue        # numpy refuses these (TypeError): the property says nothing about them
+
+            def npfn_for(key, kw=kw):
+                zero = {k: numpy.zeros((), dtype=numpy.asarray(v).dtype) for k, v in kw.items()}
+                return lambda a, key=key: numpy.ediff1d(a, **(kw if key == () else zero))
+
+            def exp_fn(hp=hp, npfn_for=npfn_for):
+                out = {k: numpy.asarray(npfn_for(k)(a)) for k, a in hp.canon().items()}
+                any_ = next(iter(out.values()))
+                return str(any_.dtype), tuple(any_.shape), out
+            cases.append(Case("ediff1d", f"ediff1d({d}(4,), {', '.join(f'{k}={numpy.asarray(v).dtype}(1)' for k, v in kw.items())})",
+                              (lambda hp=hp, kw=kw: numpoly.ediff1d(hp.build(), **kw)), expect_or_raise(exp_fn), None,
+                              sorted(hp.canon(), key=lambda k: (len(k), k)), (lambda Q, d=d: {"writes": [(d, d)]}),
+                              table=("ediff1d-to", d, f"{tb_dt}/{te_dt}")))
         hp = rand_hp(rng, d, (3,), exps=[(0,), (1,)], wide=False)
         cases.append(derived_case("negative", f"-({d}(3,))", hp, (lambda hp=hp: -hp.build()), numpy.negative, True, ("negative", d, "-")))
         cases.append(derived_case("cumsum", f"cumsum({d}(3,))", hp, (lambda hp=hp: numpoly.cumsum(hp.build())), numpy.cumsum, True, ("cumsum", d, "-")))
